@@ -296,7 +296,7 @@ func main() {
 		r.Rule("rounds; each round = fresh cache directory shared by P processes (3-8) x G goroutines (4-8) released together, each doing N operations on 24 identical-content ids (sizes 0..1MiB, half of the Puts from a slow source) and 8 differing-content ids (64B..200KiB): 50% Put/PutBytes, 50% GetBytes/GetFile, with seeded delays at the cache.* hook points. Evaluations = operations executed; distinct non-trivial = lookups that overlapped in time with a Put of the same id in another goroutine or process (counted from the merged op log), plus rounds.")
 		r.Assume("Trim is not part of this workload; flag 'Put completed' is set after Put returned and sampled before the lookup is invoked (client boundary)")
 		base := vlib.Scratch()
-		rounds := r.Pick(12, 200)
+		rounds := r.Pick(12, 90)
 		rng := r.Rand("rounds")
 		hook := map[string]int64{}
 		var tot workerResult
